@@ -51,12 +51,13 @@ def opOfJson (j : Json) : Option TopoOp :=
 def stepC07 (s : Topo) (j : Json) : Topo × Json :=
   let op := getStr j "op"
   if op == "inv" then
-    (s, ok (Json.mkObj ((verdicts s ++ [("invS", decide (InvS s))]).map (fun p => (p.1, Json.bool p.2)))))
+    (s, ok (Json.mkObj ((verdicts s ++ [("invS", decide (InvS s)), ("invSN", decide (InvSN s))]).map (fun p => (p.1, Json.bool p.2)))))
   else if op == "covered" then
     match opOfJson ((j.getObjVal? "call").toOption.getD Json.null) with
     | none => (s, err "bad-call")
     | some o =>
       (s, ok (Json.mkObj [("coveredD", Json.bool (decide (FimVerif.C07.CoveredD s o))), ("coveredS", Json.bool (decide (FimVerif.C07.CoveredS s o))),
+                          ("coveredN", Json.bool (decide (FimVerif.C07.CoveredN s o))), ("invSN", Json.bool (decide (InvSN s))),
                           ("invD", Json.bool (decide (InvD s))), ("invS", Json.bool (decide (InvS s)))]))
   else FimVerif.TopoRun.step s j
 
